@@ -286,25 +286,26 @@ if has_tk:
                 try:
                     data_name = os.path.basename(self.data_path)
                     add_log_line("%s: validating" % data_name)
-                    validator = validio.Reader(cid, self.data_path, on_error="yield")
-                    show_status_line("Validation started")
-                    last_update_time = time.time()
-                    for row_or_error in validator.rows():
-                        now = time.time()
-                        if (now - last_update_time) >= 3:
-                            last_update_time = now
-                            show_status_line(
-                                "%d rows validated" % (validator.accepted_rows_count + validator.rejected_rows_count)
-                            )
-                        if isinstance(row_or_error, errors.DataError):
-                            add_log_error_line(row_or_error)
-                    show_status_line(
-                        "%d rows validated - finished" % (validator.accepted_rows_count + validator.rejected_rows_count)
-                    )
-                    add_log_line(
-                        "%s: %d rows accepted, %d rows rejected"
-                        % (data_name, validator.accepted_rows_count, validator.rejected_rows_count)
-                    )
+                    with validio.Reader(cid, self.data_path, on_error="yield") as validator:
+                        show_status_line("Validation started")
+                        last_update_time = time.time()
+                        for row_or_error in validator.rows():
+                            now = time.time()
+                            if (now - last_update_time) >= 3:
+                                last_update_time = now
+                                validated_rows_count = validator.accepted_rows_count + validator.rejected_rows_count
+                                show_status_line("%d rows validated" % validated_rows_count)
+                            if isinstance(row_or_error, errors.DataError):
+                                add_log_error_line(row_or_error)
+                        validated_rows_count = validator.accepted_rows_count + validator.rejected_rows_count
+                        show_status_line("%d rows validated - finished" % validated_rows_count)
+                        add_log_line(
+                            "%s: %d rows accepted, %d rows rejected"
+                            % (data_name, validator.accepted_rows_count, validator.rejected_rows_count)
+                        )
+                except errors.DataError as error:
+                    # For example a check at the end of the data failed when the reader was closed.
+                    add_log_error_line(error)
                 except Exception as error:
                     add_log_error_line("cannot validate data: %s" % error)
 
